@@ -200,3 +200,48 @@ def ring_label_step(ctx, rep, nmax, witness):
     part = rep.add_part("step: ring-label allocation in _derive_smiles_from_fragment with n earlier rings", res,
                         {"n": "0..%d (concretised: one path per n)" % nmax})
     part["note"] = "labels above 99 are reported through the public decoder witness (n+1 three-membered rings)"
+
+
+def writer_graphs(ctx, rep, natoms=(3, 3), max_rings=3, time_limit=60):
+    """mol_to_smiles on molecular graphs built through the real MolecularGraph API: two chain
+    fragments, ring bonds (including ring bonds across fragments, which the decoder can produce)
+    chosen by the solver.  The written SMILES must read back (O-READ) to exactly these bonds."""
+    mg, su = ctx.mg, ctx.su
+    n1, n2 = natoms
+    n = n1 + n2
+
+    def path(eng, col):
+        ctx.reset()
+        mol = mg.MolecularGraph()
+        for i in range(n):
+            mol.add_atom(mg.Atom("C", False), i in (0, n1))
+        chain = set()
+        for i in range(n):
+            if i + 1 < n and i + 1 != n1:
+                mol.add_bond(i, i + 1, 1, None)
+                chain.add((i, i + 1))
+        rings = []
+        rings_made = [0] * n
+        # ring candidates in order of the closing atom (as the decoder's queue would hold them)
+        for r in range(n):
+            for l in range(r):
+                if (l, r) in chain or len(rings) >= max_rings:
+                    continue
+                if bool(engine.fresh_bool("ring_%d_%d" % (l, r))):
+                    mol.add_ring_bond(a=l, a_stereo=None, a_pos=rings_made[l], b=r, b_stereo=None, b_pos=rings_made[r], order=1)
+                    rings_made[l] += 1
+                    rings_made[r] += 1
+                    rings.append((l, r))
+        out = str(su.mol_to_smiles(mol))
+        m = read_smiles(out)
+        want = chain | set(rings)
+        col.nontrivial(tuple(rings))
+        if len(rings) >= 2:
+            col.sample({"ring_bonds": rings, "written": out})
+        if m.faults or set(m.bonds) != want or len(m.atoms) != n:
+            col.candidate({"prop": rep.pid, "kind": "writer_graph", "natoms": [n1, n2], "rings": rings})
+
+    res = driver.explore_parallel(path, time_limit)
+    part = rep.add_part("step: mol_to_smiles on two chain fragments of %d+%d atoms with up to %d solver-chosen ring bonds (also across fragments)"
+                        % (n1, n2, max_rings), res, {"atoms": [n1, n2], "ring_bonds": "any set of at most %d non-chain pairs" % max_rings})
+    return part
